@@ -780,6 +780,37 @@ fn structured_variants(proof: &Proof) -> Vec<(String, Proof)> {
             }
         }
     }
+    // a Lagrange kernel frame smuggled into a proof whose trace has none: the Lagrange section filled with k elements and, so
+    // that the frame still parses, the trace-state section shortened by one column (parse() takes the Lagrange column off
+    // the auxiliary width whenever a Lagrange frame is present)
+    {
+        let bl = Blobs::parse(&ob, 0, &[2, 2, 2], 0);
+        let states = bl.blobs[0].1.clone();
+        if bl.blobs[1].1 == vec![0u8] && states.len() > 1 && (states.len() - 1) % 2 == 0 {
+            // element size from the evaluation section is not reliable (any count); derive it from the candidates 8 / 16 / 24 / 32 / 48
+            for eb in [8usize, 16, 24, 32, 48] {
+                if (states.len() - 1) % (2 * eb) != 0 || (states.len() - 1) / (2 * eb) < 2 {
+                    continue;
+                }
+                for k in [1usize, 2, 5, 9] {
+                    let mut v = bl.clone();
+                    let mut lag = vec![k as u8];
+                    for _ in 0..k {
+                        lag.extend_from_slice(&states[1..1 + eb]);
+                    }
+                    v.blobs[1].1 = lag;
+                    let mut st = states.clone();
+                    st.truncate(states.len() - 2 * eb);
+                    v.blobs[0].1 = st;
+                    if let Ok(f) = air::proof::OodFrame::read_from_bytes(&v.bytes()) {
+                        let mut p = proof.clone();
+                        p.ood_frame = f;
+                        out.push((format!("OOD frame: a Lagrange kernel frame of {k} rows added, trace states shortened by one column of {eb}-byte elements"), p));
+                    }
+                }
+            }
+        }
+    }
     // FRI proof: blobs, then whole layers
     let fb = proof.fri_proof.to_bytes();
     let (n_layers, widths) = fri_layout(&fb);
